@@ -32,7 +32,7 @@ TB_ROPE_OBS = [
 ]
 
 from vx.kstages import k1_replace_inv, k2_eq_hash, k4_with_indices, k5_codec_cross  # noqa: E402
-from vx.witness import c19_witness, codec_witness, eqhash_witness, mixed_witness, replace_witness, rope_witness  # noqa: E402
+from vx.witness import c19_witness, codec_witness, eqhash_witness, mixed_witness, replace_witness, rope_witness, views_witness  # noqa: E402
 
 PLAN = {
     "C12": {
@@ -75,6 +75,29 @@ PLAN = {
         "assumptions": ["mappings string shorter than u32::MAX - 1 bytes", "encoder input sorted by generated line (any u32 values)", "ReplaceSource: positions on char boundaries or beyond the end, inner text < 4 GiB; in this view the total length of the rope built by ReplaceSource::rope is assumed to fit usize (C05's view proves it from the spliced text fitting usize)"],
         "not_covered": ["SourceMap::from_json/from_slice/from_reader (simd-json)", "every stream_chunks implementation", "Rope::lines / char_indices / hash", "ReplaceSource::stream_chunks / map"],
         "design_ref": "DESIGN.md §4/C17",
+    },
+    "C07": {
+        "level": "proof",
+        "witness": views_witness,
+        "verus_units": ["concat_views", "replace_splice@C05", "rope_core@C16"],
+        "technique": "contract-based deductive verification (Verus): the real ConcatSource::{source, rope, buffer, size} against the concatenation of the children's views, the children entering through the property's own statement as the trait contract (induction step over the source tree); ReplaceSource::{source, rope, size} and Rope::{to_string, to_bytes} as proved for C05 / C16",
+        "claim": "Partial, unbounded proof. With two spec views per source - text() (what source() and rope() denote) and raw() (what buffer() holds and size() counts; equal to text() for UTF-8 leaves, its lossy decoding's origin for binary leaves) - "
+                 "and the trait contract `source() holds text(), rope() is a well-formed rope denoting text(), buffer() holds raw(), size() == |raw()|` on the children (this IS property C07 for each child), the real ConcatSource::source, "
+                 "::rope, ::buffer and ::size return exactly the concatenation of the children's text() / raw() in order, for every number of children: the single-child delegation arm, the `map(..).collect()` String path, the Rope::new + append loop "
+                 "(Rope contracts as proved by rope_core), the `collect::<Vec<_>>().concat()` path and the `sum()` path all agree - so rope() renders to source(), size() == buffer().len(), and when the children's raw() == text() then buffer() is the bytes of source(). "
+                 "ReplaceSource::rope renders to ReplaceSource::source and size() is its length (unit replace_splice, as for C05); Rope::to_string / to_bytes render exactly the denoted text (unit rope_core). "
+                 "Not decided: to_writer (dyn Write; searched by the twin, including writers that fail after k bytes), the leaves' own views (one-line delegations; RawBufferSource's lossy decoding goes through OnceLock + String::from_utf8_lossy), "
+                 "CachedSource, ConcatSource::new / add (flat_map + downcast_ref flattening), SourceMapSource / OriginalSource views.",
+        "note": "Partial: the induction step for ConcatSource and ReplaceSource, not the base cases. Trusted: Verus/Z3/vstd, rules D1 D2 D5 D6 F1 MC1 MC2 MS1, the Cow deref axioms; Arc<dyn Source> method calls dispatch to implementations that satisfy the trait contract (assumed for the leaves).",
+        "trusted_base": TB_VERUS + [
+            "unit concat_views: rule D5 (trait Source reduced to source / rope / buffer / size with spec views text() and raw(); its contracts are the induction hypothesis), rule D6 (Rope as an opaque type with the contracts of new / append that unit rope_core proves), "
+            "rules MC1 (`X.iter().map(|c| c.source()).collect()` into a String -> push_str loop), MC2 (`X.iter().map(|c| c.buffer()).collect::<Vec<_>>().concat()` -> extend_from_slice loop), MS1 (`X.iter().map(|c| c.size()).sum()` -> `+=` loop), F1",
+            "assume_specification <Cow<B> as Deref>::deref (uninterpreted target) with two axioms: the target of a Cow<str> / Cow<[u8]> is the borrowed value or the owned value's content (definition of Cow::deref)",
+        ] + TB_ROPE,
+        "assumptions": ["every child satisfies the trait contract (C07 for the child): proved here for ConcatSource and ReplaceSource children, assumed for leaves, CachedSource, SourceMapSource", "total text / buffer length fits usize (requires of rope() and size())",
+                        "ReplaceSource: the domain preconditions of C05 (positions on char boundaries or beyond the end, text < 4 GiB)"],
+        "not_covered": ["to_writer (dyn Write): only searched by the twin, with failing writers", "leaf views (RawSource / RawStringSource / RawBufferSource / OriginalSource / SourceMapSource), CachedSource", "ConcatSource::new / add (flattening of nested ConcatSources)", "ReplaceSource::buffer / to_writer"],
+        "design_ref": "DESIGN.md §4/C07",
     },
     "C11": {
         "level": "proof",
